@@ -9,7 +9,7 @@ SPEC = {
     'cxxflags': ['-fsanitize-recover=float-cast-overflow'],
     'lean_modules': ['N2k.Props.C05'], 'props_files': ['N2k/Props/C05.lean'],
     'translators': ['layouts'],
-    'case_start': ['set'],
+    'case_start': ['set', 'sat', 'wp', 'pgns', 'bank'],
     'trusted_base': [
         "translator tools/translators/layouts.py (clang++-14 JSON AST -> per-bit symbolic evaluation) REGENERATES "
         "lean/N2k/Gen/Layouts.lean and lean/N2k/Gen/LayoutProofs.lean from src/N2kMessages.cpp, src/N2kMaretron.cpp and "
@@ -27,6 +27,11 @@ SPEC = {
         "width W of a field: enumeration range (C++ [dcl.enum]: the values of an unscoped enumeration are 0 .. 2^M-1 for the "
         "smallest M covering the enumerators), 1 for bool, the named non-reserved bits of a status union, 8w for a scaled "
         "field, and for plain integers the number of bits the setter stores; the harness draws integer inputs from the same W",
+        "repeated-record PGNs are oracle-only (no Lean obligation: the Append... builders and the indexed parser contain loops / "
+        "index arithmetic outside the layout language): harness ops sat / wp / pgns / bank build 129540 with every count 0..18 and "
+        "the refused 19th satellite, 129285 / 130074 with 0..24 waypoints (refusal when full must leave the message intact; "
+        "records read back by an independent decoder of the published format, the library has no parser for them), 126464 "
+        "with 0..74 PGNs, and the 28 two-bit items of a 127501 switch bank through the status helpers, in the quick tier too",
         "scaled fields are exchanged as integer codes: the harness calls the setter with code*resolution and converts the "
         "parsed double back with the parser-side resolution literal; the double<->code conversion itself is property C06. "
         "For 8-byte fields the harness searches the neighbouring doubles with the library's own Add8ByteDouble for one that "
